@@ -167,6 +167,15 @@ def run(repo: Repo, chk: Check, thorough: bool = False) -> None:
                         neg = True
                     if "'^'" in norm(tn.comparators[0]) and any('\\\\' in norm(s) for s in nyes):
                         esc2 = True
+    if br is not None and not neg:
+        # the test kept in a local first: `negated = stuff[0] == '!'` ... `if negated: stuff = '^' + stuff`
+        flags = {t.id for a in ast.walk(br) if isinstance(a, ast.Assign) and isinstance(a.value, ast.Compare) and isinstance(a.value.left, ast.Subscript) and
+                 norm(a.value.left.slice) == '0' and const_str(a.value.comparators[0]) == '!' for t in a.targets if isinstance(t, ast.Name)}
+        for n in ast.walk(br):
+            if isinstance(n, ast.If):
+                tn, nyes, nno = if_branches(n)
+                if isinstance(tn, ast.Name) and tn.id in flags and any("'^'" in norm(s_) for s_ in nyes):
+                    neg = True
     chk.ob('R13.1', "qnmatch.translate :: '[!seq]' negates the set", neg, "leading '!' becomes '^'" if neg else "'[!seq]' is no longer translated to a negated set", tr.loc)
     chk.ob('R13.1', "qnmatch.translate :: a literal leading '^' in a set is escaped", esc2, "'^' / '[' at the start of the set get a backslash" if esc2 else
            "'[^x]' written by the user would silently become a negated set", tr.loc)
@@ -190,7 +199,8 @@ def run(repo: Repo, chk: Check, thorough: bool = False) -> None:
         raise AnalysisError(f'R13.1: {n_guard} guarded cursor reads found in translate (4 confirmed by hand)')
     # the text between the brackets is pasted into a regex character class: `a-z` becomes a regex range, and a reversed range (`z-a`), which is
     # just an empty set for the documented matcher, is an error for the regex compiler - unless translate() looks at the hyphens itself
-    hyphen = any(isinstance(n, ast.Constant) and isinstance(n.value, str) and n.value == '-' for n in tr.walk())
+    helpers_ = [g for g in repo.funcs.values() if g.mod is tr.mod and g is not tr and any(call_name(c) == g.name for c in calls_in(tr))]
+    hyphen = any(isinstance(n, ast.Constant) and isinstance(n.value, str) and n.value == '-' for g in [tr] + helpers_ for n in g.walk())
     chk.ob('R13.1', "qnmatch.translate :: ranges inside [seq] are validated before they reach the regex compiler", hyphen,
            'translate() handles `-` inside a set' if hyphen else
            "the set text is inserted verbatim (only backslashes are escaped): `--privacy='PRIVATE:pkg.[z-a]*'` (or `[a-Z]`) makes re.compile raise "
